@@ -133,6 +133,16 @@ CURATED = {
     'k_width1': C('Composite', C('Composite', L), C('Resumable', C('Composite', L, L)), L),
 }
 
+# larger shapes used by the thorough tier only (compile time)
+CURATED_BIG = {
+    # > 255 serialization bits (the 8-bit SERIAL_BITS truncation), orthogonal width multiple of 8 placed last
+    'k_serial_big': O(*([C('Composite', L, L, headless=True)] * 88 + [O(L, L, L, L, L, L, L, L)]), headless=True),
+    # wide resumable regions nested, widths 9 / 17
+    'k_wide_nested': C('Resumable', C('Resumable', *([L] * 9)), C('Composite', *([L] * 17)), O(C('Resumable', L, L, L), C('Composite', L, L, L, L, L)), L),
+    # deep alternation of orthogonal and composite regions
+    'k_deep_ortho': C('Composite', O(C('Resumable', O(C('Composite', O(C('Resumable', L, L), L), L), L), L), C('Composite', L, L)), L),
+}
+
 # ---------------------------------------------------------------------------------------------
 
 DEFAULT_CFG = {'manual': 0, 'bottomup': 0, 'subst': 4, 'taskcap': 0, 'payload': 'int'}
@@ -291,7 +301,7 @@ def add_masks(sj, seed):
 def shape_id(sj):
     return hashlib.sha1(json.dumps([sj['desc'], sj['cfg']], sort_keys=True).encode()).hexdigest()[:10]
 
-def shape_set(seed, n_random, curated=None, cfg_variants=True, **kw):
+def shape_set(seed, n_random, curated=None, cfg_variants=True, big=(), **kw):
     """curated + seeded random shapes, each with a config derived from the seed"""
     out = []
     rng = random.Random(seed * 7919 + 13)
@@ -308,6 +318,11 @@ def shape_set(seed, n_random, curated=None, cfg_variants=True, **kw):
         spec = CURATED[nm]
         nodes, _ = number(spec)
         out.append(shape_json(nm, spec, cfg_for(nm, nodes)))
+    for nm in big:
+        spec = CURATED_BIG[nm]
+        nodes, _ = number(spec)
+        c = cfg_for(nm, nodes); c['taskcap'] = 0
+        out.append(shape_json(nm, spec, c, inj=[]))
     for i in range(n_random):
         spec = rand_spec(rng, **kw)
         nodes, _ = number(spec)
